@@ -243,8 +243,8 @@ def worker(args):
                     try:
                         WriteToPaths(cfg).create(e)
                     except Exception as ex_:
-                        ok = False
-                        rec.violation("create_raised", dict(case, sid=e, config=cfg), repr(ex_))
+                        ok = False      # (create itself is judged by C15, not here)
+                        rec.count("create_failed_not_judged")
                 if ok:
                     rec.count("creates")
                     created.append(e)
